@@ -439,6 +439,28 @@ def check_mro(world: Dict[str, Any], system: Any) -> List[Viol]:
                         break
             except ImportError:
                 pass
+            # override notes ("overrides X.m") name the class attribute lookup would reach next, and
+            # "overridden in" lists exactly the nearest redefinitions below
+            try:
+                from pydoctor.templatewriter import pages as _pages
+                from pydoctor.stanutils import flatten as _flatten
+                for name in sorted(defs[str(cid)]['members']):
+                    nxt = next((c for c in want[1:] if name in defs[str(c)]['members']), None)
+                    html_ = ''.join(_flatten(x) for x in _pages.get_override_info(cls, name))
+                    m = re.search(r'overrides <code><a[^>]*title="([^"]+)"', html_) or \
+                        re.search(r'overrides <code><a[^>]*>([^<]+)</a>', html_)
+                    got_over = m.group(1) if m else None
+                    want_over = None
+                    if nxt is not None:
+                        tobj = bym.get(defs[str(nxt)]['members'][name], [])
+                        nobj = bym.get(nxt, [])
+                        if len(nobj) == 1:
+                            want_over = f'{nobj[0].fullName()}.{name}'
+                    if (got_over or None) != want_over and not (got_over and want_over and got_over.endswith(want_over.split('.', 1)[-1]) and False):
+                        out.append(('override-note-wrong-class', f'M{cid}.{name}: page says it overrides {got_over!r}, attribute lookup along the MRO reaches {want_over!r} next'))
+                        break
+            except ImportError:
+                pass
             for name in sorted(names):
                 definer = next(c for c in want if name in defs[str(c)]['members'])
                 exp_id = defs[str(definer)]['members'][name]
